@@ -239,6 +239,8 @@ func checkC09(ctx *core.Ctx, rep *core.Report) {
 	if ctx.Shard == 0 {
 		c09Resigned(rep)
 	}
+	c09Donors(ctx, rep, certs)
+	c09Fragments(ctx, rep, all, certs) // every corpus certificate donates its elements, in both tiers
 	cnt := 0
 	xstate.Explore(ctx, rep, xstate.Options{Seeds: certs, Depth: 0}, func(st *xstate.State) {
 		cnt++
@@ -407,7 +409,11 @@ func c09OwnKeySigned(rep *core.Report) {
 }
 
 func replayC09(rp map[string]interface{}) (string, error) {
-	if op, _ := rp["op"].(string); op != "" {
+	if op, _ := rp["op"].(string); op == "donor" {
+		return replayC09Donor(rp)
+	} else if op == "fragment" {
+		return replayC09Fragment(rp)
+	} else if op != "" {
 		return "", fmt.Errorf("op replay %s is re-run by the check itself", op)
 	}
 	st, err := stateFromReplay(rp)
